@@ -190,20 +190,26 @@ func (h c15Handle) ChecksumString() string { return h.chk }
 // entry would promise is the control hash ExpandApk computes for these very bytes, so that the
 // verification added by fix 6d335fb does not stop the hostile section before the readers behind it.
 func installPipeline(ctx context.Context, in []byte, lazy bool) error {
+	_, err := installPipelineFS(ctx, in, lazy)
+	return err
+}
+
+// installPipelineFS: the same, handing back the target filesystem (nil when it was not reached)
+func installPipelineFS(ctx context.Context, in []byte, lazy bool) (apkfs.FullFS, error) {
 	d, err := os.MkdirTemp(tmpRoot, "pipe")
 	if err != nil {
-		return nil
+		return nil, nil
 	}
 	defer os.RemoveAll(d)
 	pre, err := expandapk.ExpandApk(ctx, bytes.NewReader(in), filepath.Join(d))
 	if err != nil {
-		return err
+		return nil, err
 	}
 	chk := "Q1" + base64.StdEncoding.EncodeToString(pre.ControlHash)
 	_ = pre.Close()
 	p := filepath.Join(d, "p.apk")
 	if err := os.WriteFile(p, in, 0o644); err != nil {
-		return nil
+		return nil, nil
 	}
 	var fsys apkfs.FullFS = apkfs.NewMemFS()
 	if lazy {
@@ -211,16 +217,16 @@ func installPipeline(ctx context.Context, in []byte, lazy bool) error {
 	}
 	a, err := apk.New(apk.WithFS(fsys), apk.WithIgnoreMknodErrors(true))
 	if err != nil {
-		return nil
+		return nil, nil
 	}
 	if err := a.InitDB(ctx); err != nil {
-		return nil
+		return nil, nil
 	}
 	if _, err := a.InstallPackages(ctx, nil, []apk.InstallablePackage{c15Handle{p, "hello", chk}}); err != nil {
-		return err
+		return nil, err
 	}
 	_, err = a.GetInstalled()
-	return err
+	return fsys, err
 }
 
 func declSizeReaders(rs map[string]func(c dcase) error) {
